@@ -9,6 +9,13 @@
 (* end" = the code's StopIteration = the standard's "runs out of bytes => abort").  Every     *)
 (* operator takes D, the set of enabled deviations: D = {} is the INTENDED design (the        *)
 (* standard), D = the listed known findings is the CODE-FAITHFUL model.                       *)
+(*                                                                                            *)
+(* ASSUMED clauses (both configurations follow the code; marked `ASSUMED` where they occur):  *)
+(*  - '<' also ends an unquoted attribute value and a tag name (the tag-name '<' is reprocessed) *)
+(*  - "runs out of bytes" is read literally: any step that would move the position past the   *)
+(*    end of the window aborts the prescan with no result - also when the closing quote of an *)
+(*    attribute value is the very last byte of the window                                     *)
+(*  - the newer "<?x" UTF-16 XML-declaration sniffing step of the prescan is not modelled     *)
 EXTENDS Unicode, Gen_Encodings
 
 PrescanDefects == {
@@ -123,7 +130,7 @@ AttrValue(w, nm, q) ==
          IF r >= n THEN ANone(n)
          ELSE IF w[r + 1] \in {34, 39}                                      \* step 10: quoted
               THEN LET g == FirstIn(w, r + 1, {w[r + 1]}) IN
-                   IF g + 1 >= n THEN AStop                                 \* no closing quote, or nothing after it
+                   IF g + 1 >= n THEN AStop                                 \* no closing quote, or nothing after it (ASSUMED: literal "runs out of bytes")
                    ELSE AAttr(nm, Bytes(w, r + 1, g), g + 1)
          ELSE IF w[r + 1] = 62 THEN AAttr(nm, <<>>, r)
          ELSE LET e == FirstIn(w, r + 1, ValueEnd) IN                       \* step 11: unquoted
